@@ -39,6 +39,8 @@ func main() {
 		e2e(c)
 	case "race":
 		raceProbe(c)
+	case "config":
+		configPass(c)
 	default:
 		panic("unknown mode")
 	}
